@@ -56,10 +56,22 @@ def ids_for(sit):
 LIBEXIT = 'taskreport refused "out:put" {\n  formats csv\n  columns id\n}\n'   # ':' in a report file name: the library calls sys.exit
 
 
+# a project that keeps the scheduler busy for seconds (the interrupt has to arrive while the run is under way)
+SLOW = ('project p "P" 2024-01-01 +3y {\n  timezone "UTC"\n}\n' + "".join('resource r%d "R" {}\n' % i for i in range(20))
+        + "".join('task t%d "T" { effort 100d allocate r%d }\n' % (i, i % 20) for i in range(120)))
+FSIZE_LIMIT = 65536
+
+
 def text_for(sit):
     """The input of a situation: str, or bytes for input that is not valid UTF-8, or None (no file)."""
+    if sit.get("fault") == "sigint":
+        return SLOW.replace("task t0 ", "tsak t0 ") if sit["input"] == "syntax" else SLOW
+    if sit.get("fault") == "fsize":        # larger than the file size limit the process runs under
+        return text_for({k: v for k, v in sit.items() if k != "fault"}) + "# padding\n" * (3 * FSIZE_LIMIT // 10)
     i = sit["input"]
     if i == "ok":
+        return BASE + OWN[sit["own"]]
+    if i in ("badfname", "nlfname"):
         return BASE + OWN[sit["own"]]
     if i == "partial":
         return BASE + PARTIAL + OWN[sit["own"]]
@@ -80,8 +92,77 @@ def text_for(sit):
     return None
 
 
+def fname_for(sit, cwd):
+    """Path of the input file of a path situation (bytes for a name that is not valid UTF-8)."""
+    if sit["input"] == "badfname":
+        return os.path.join(os.fsencode(cwd), b"caf\xe9 input.tjp")
+    if sit["input"] == "nlfname":         # a newline in the NAME: the name must not become project text
+        return os.path.join(cwd, 'x\ntask zz "Z" { duration 2d }\n#.tjp')
+    if sit["input"] == "unreadable":
+        return unreadable_file()
+    return os.path.join(cwd, sit.get("fname", "input.tjp"))
+
+
+_UNREADABLE = []
+
+
+def unreadable_file():
+    """A regular, non-empty file whose read() fails even for root (a sysfs attribute), or None."""
+    if _UNREADABLE:
+        return _UNREADABLE[0]
+    import stat
+    cands = ["/sys/class/zram-control/hot_remove", "/sys/class/zram-control/hot_add"]
+    for root, _ds, fs in os.walk("/sys/devices"):
+        cands += [os.path.join(root, f) for f in fs if f in ("autosuspend_delay_ms", "hot_remove")]
+        if len(cands) > 40:
+            break
+    found = None
+    for c in cands:
+        try:
+            st = os.stat(c)
+            if not stat.S_ISREG(st.st_mode) or not st.st_size:
+                continue
+            with open(c, "rb") as fh:
+                fh.read()
+        except OSError:
+            found = c
+            break
+    _UNREADABLE.append(found)
+    return found
+
+
 def as_bytes(text):
     return text if isinstance(text, bytes) else (text or "").encode()
+
+
+def fault_kwargs(sit):
+    if sit.get("fault") == "fsize":
+        import resource
+        return {"preexec_fn": lambda: resource.setrlimit(resource.RLIMIT_FSIZE, (FSIZE_LIMIT, FSIZE_LIMIT))}
+    return {}
+
+
+def interrupt_when_running(p, tmpd, own_only=True, limit=60.0):
+    """SIGINT once the run is under way: its plan_auto_* copy exists (solitary TMPDIR), plus a moment to get into the engine."""
+    import signal
+    import threading
+
+    def watch():
+        end = time.time() + limit
+        while time.time() < end and p.poll() is None:
+            try:
+                names = os.listdir(tmpd)
+            except OSError:
+                names = []
+            if any(n.startswith("plan_auto_") or n.startswith("plan_output_") for n in names):
+                time.sleep(0.4)
+                if p.poll() is None:
+                    p.send_signal(signal.SIGINT)
+                return
+            time.sleep(0.01)
+    th = threading.Thread(target=watch, daemon=True)
+    th.start()
+    return th
 
 
 def dead_pipe():
@@ -105,7 +186,7 @@ def invoke(scr, sit, cwd, tmpdir, text=None, timeout=300, strace=None, hashseed=
         elif sit["input"] == "directory":
             args.append(cwd)
         else:
-            args.append(os.path.join(cwd, sit.get("fname", "input.tjp")))
+            args.append(fname_for(sit, cwd))
             inbytes = as_bytes(text)
     else:
         if sit["channel"] == "dash":
@@ -114,7 +195,7 @@ def invoke(scr, sit, cwd, tmpdir, text=None, timeout=300, strace=None, hashseed=
         inbytes = stdin_data
     outfile = None
     pre = None
-    if sit.get("out", "stdout") not in ("stdout", "brokenpipe"):
+    if sit.get("out", "stdout") not in ("stdout", "brokenpipe", "stderrfull"):
         outfile = sit["outfile"] if sit["out"] != "baddir" else os.path.join(os.path.dirname(sit["outfile"]), "no", "such", "dir", "result")
         args[args.index("report") + 1:args.index("report") + 1] = ["--output", outfile] + (["--force"] if sit["out"] == "force" else [])
         if sit["out"] in ("exists", "force"):
@@ -134,6 +215,11 @@ def invoke(scr, sit, cwd, tmpdir, text=None, timeout=300, strace=None, hashseed=
         finally:
             os.close(w)
         p.stdout = b""
+    elif sit.get("out") == "stderrfull":
+        with open("/dev/full", "wb") as full:
+            p = subprocess.run(args, cwd=cwd, env=env, input=stdin_data if stdin_data is not None else b"", stdout=subprocess.PIPE,
+                               stderr=full, timeout=timeout)
+        p.stderr = b"(stderr was /dev/full)"
     else:
         p = subprocess.run(args, cwd=cwd, env=env, input=stdin_data if stdin_data is not None else b"", stdout=subprocess.PIPE,
                            stderr=subprocess.PIPE, timeout=timeout)
@@ -185,8 +271,8 @@ def listing(d):
     return sorted(out)
 
 
-def enumerate_situations():
-    res = run_tlc("MC_Cli", "MC_Cli1.cfg", timeout=600, workers=8)
+def enumerate_situations(cfg="MC_Cli1.cfg"):
+    res = run_tlc("MC_Cli", cfg, timeout=600, workers=8)
     if res.error or res.invariant_violated or "Temporal properties were violated" in res.out:
         raise MachineryError("Cli.tla violates its own contract:\n" + res.out[-1500:])
     terms = []
@@ -208,6 +294,10 @@ def check_c19(prop, tier, replay=None):
     run.add_tlc(res)
     if replay:
         terms = [json.load(open(replay))["term"]]
+    if unreadable_file() is None:        # no regular file here whose read() fails for this user: the situation cannot be staged
+        run.cov["situations_not_staged"] = len([t for t in terms if t["sit"]["input"] == "unreadable"])
+        run.assumptions.append("no unreadable regular file could be found on this machine; the 'unreadable' situations were not replayed")
+        terms = [t for t in terms if t["sit"]["input"] != "unreadable"]
     seeds = ["0"] if tier == "quick" else ["0", "1", "777"]
     with scratch_build() as scr:
         auto_rows = {}
@@ -223,7 +313,7 @@ def check_c19(prop, tier, replay=None):
                 os.mkdir(tmpd)
                 text = text_for(sit)
                 if sit["channel"] == "path" and text is not None:
-                    with open(os.path.join(cwd, "input.tjp"), "wb") as f:
+                    with open(fname_for(sit, cwd), "wb") as f:
                         f.write(as_bytes(text))
                 before = listing(cwd)
                 outd = os.path.join(wd, "out")
@@ -232,7 +322,7 @@ def check_c19(prop, tier, replay=None):
                 obs = invoke(scr, sit, cwd, tmpd, hashseed=hs)
                 kind, detail = classify(sit, obs)
                 wkind = "none"
-                if sit["out"] not in ("stdout", "brokenpipe"):
+                if sit["out"] not in ("stdout", "brokenpipe", "stderrfull"):
                     if obs["written"] == obs["pre"]:
                         wkind = "none"              # nothing written / the pre-existing file is untouched
                     elif sit["out"] == "exists":
@@ -271,7 +361,7 @@ def check_c19(prop, tier, replay=None):
                     problems.append("created in cwd: %s" % new_cwd[:4])
                 if kind == "auto":
                     # same text <=> same input class (ok / crlf): rows must agree within a format, bytes within (format, text)
-                    auto_rows.setdefault((sit["format"], sit["input"]), []).append((key, detail["rows"], obs["stdout"] if sit["own"] == "none" else None, sit))
+                    auto_rows.setdefault((sit["format"], "ok" if sit["input"] in ("badfname", "nlfname") else sit["input"]), []).append((key, detail["rows"], obs["stdout"] if sit["own"] == "none" else None, sit))
                 if problems:
                     run.violation(key, {"term": t, "text": text if isinstance(text, (str, type(None))) else text.decode("latin-1")}, {"situation": sit, "problems": problems, "stderr": obs["stderr"][-300:].decode(errors="replace")})
                 results.append((key, kind, obs["exit"]))
@@ -319,6 +409,8 @@ CONC_SITS = [
     {"input": "ok", "channel": "path", "format": "csv", "own": "subdir"},
     {"input": "partial", "channel": "stdin", "format": "json", "own": "subdir"},
     {"input": "partial", "channel": "path", "format": "csv", "own": "none"},
+    {"input": "ok", "channel": "path", "format": "json", "own": "none", "fault": "sigint"},
+    {"input": "ok", "channel": "stdin", "format": "json", "own": "none", "fault": "fsize"},
 ]
 
 
@@ -431,7 +523,7 @@ def concurrent_round(scr, sits, same_text=True, with_strace=False):
             if s["format"] == "csv":
                 args.append("--csv")
             data = None
-            if s.get("out", "stdout") not in ("stdout", "brokenpipe"):
+            if s.get("out", "stdout") not in ("stdout", "brokenpipe", "stderrfull"):
                 of = os.path.join(outs, "result%d.%s" % (i, s["format"])) if s["out"] != "baddir" else os.path.join(outs, "no", "such%d" % i, "result")
                 args += ["--output", of] + (["--force"] if s["out"] == "force" else [])
                 if s["out"] in ("exists", "force"):
@@ -450,7 +542,9 @@ def concurrent_round(scr, sits, same_text=True, with_strace=False):
                 p = subprocess.Popen(args, cwd=cwd, env=env, stdin=subprocess.PIPE, stdout=w, stderr=subprocess.PIPE)
                 os.close(w)
             else:
-                p = subprocess.Popen(args, cwd=cwd, env=env, stdin=subprocess.PIPE, stdout=subprocess.PIPE, stderr=subprocess.PIPE)
+                p = subprocess.Popen(args, cwd=cwd, env=env, stdin=subprocess.PIPE, stdout=subprocess.PIPE, stderr=subprocess.PIPE, **fault_kwargs(s))
+            if s.get("fault") == "sigint":
+                interrupt_when_running(p, tmpd)
             procs.append((p, data))
         # feed stdin and collect concurrently
         import threading
@@ -515,6 +609,31 @@ def check_c20(prop, tier, replay=None):
             solo[json.dumps(s, sort_keys=True)] = r[0]
             if c or t:
                 run.violation("solo-%s-%s" % (s["input"], s["channel"]), {"situation": s}, {"why": "a solitary run leaves files behind", "cwd": c[:4], "tmp": t[:4]})
+        # outside faults (interrupt, a temporary copy that cannot be written): every terminal situation of MC_CliFault, alone
+        fterms, fres0 = enumerate_situations("MC_CliFault.cfg")
+        run.add_tlc(fres0)
+        ok_exits = {}
+        for t in fterms:
+            k = json.dumps({a: b for a, b in t["sit"].items() if a != "out"}, sort_keys=True)
+            ok_exits.setdefault(k, set()).update(t["okExits"])
+        for k in sorted(ok_exits):
+            s = json.loads(k)
+            for rep_ in range(1 if tier == "quick" else 3):
+                r, c, t, _ = concurrent_round(scr, [dict(s)])
+                run.evaluated()
+                run.nontrivial(phash(["fault", k, rep_]))
+                run.cov["traces_validated_against_impl"] += 1
+                probs = []
+                if c or t:
+                    probs.append("files left behind: cwd %s tmp %s" % (c[:4], t[:4]))
+                if r[0]["exit"] not in ok_exits[k]:
+                    probs.append("exit status %d, the specification allows %s" % (r[0]["exit"], sorted(ok_exits[k])))
+                if r[0]["exit"] != 0 and r[0]["stdout"].strip():
+                    probs.append("a failed run wrote to stdout")
+                if probs:
+                    run.violation("fault-%s-%s-%s" % (s["fault"], s["input"], s["channel"]), {"situation": s},
+                                  {"why": "an outside fault (interrupt / temporary copy cannot be written) is not survived cleanly", "problems": probs,
+                                   "stderr": r[0]["stderr"][-300:].decode(errors="replace")})
         sizes = [8, 16] if tier == "quick" else [8, 16, 32, 64, 128, 128]
         rounds = []
         for n in sizes:
@@ -530,6 +649,12 @@ def check_c20(prop, tier, replay=None):
                 run.nontrivial(phash([name, i]))
                 s0 = {k: v for k, v in s.items() if k != "fname"}
                 ref = solo[json.dumps(s0, sort_keys=True)]
+                if s0.get("fault") == "sigint":        # when the signal arrives is not controlled here: any admissible exit, no partial output
+                    ks = json.dumps(s0, sort_keys=True)
+                    if r["exit"] not in ok_exits.get(ks, {0, 1, 130}) or (r["exit"] != 0 and r["stdout"].strip()):
+                        run.violation("%s-p%d" % (name, i), {"round": name, "situations": sits, "process": i},
+                                      {"why": "an interrupted process among others: inadmissible exit status or partial output", "exit": r["exit"], "stdout": r["stdout"][:200].decode(errors="replace")})
+                    continue
                 if r["exit"] != ref["exit"] or norm_out(s, r["stdout"]) != norm_out(s, ref["stdout"]):
                     run.violation("%s-p%d" % (name, i), {"round": name, "situations": sits, "process": i},
                                   {"why": "a process running concurrently with others does not produce what a solitary run produces", "situation": s0,
@@ -537,7 +662,7 @@ def check_c20(prop, tier, replay=None):
         # strace rounds
         exps = []
         for j in range(2 if tier == "quick" else 8):
-            sits = [dict(rng.choice(CONC_SITS)) for _ in range(4 if tier == "quick" else 8)]
+            sits = [dict(rng.choice([c for c in CONC_SITS if "fault" not in c])) for _ in range(4 if tier == "quick" else 8)]
             res, c, t, fs = concurrent_round(scr, sits, same_text=False, with_strace=True)
             if any(len(p) > 290 for p in fs):
                 raise MachineryError("strace log longer than FsTrace's bound")
